@@ -78,7 +78,11 @@ CHECKS['C16'] = dict(level='model_checking', ref='DESIGN.md 3.6, 6 (C16)',
    text='Memo.tla transcribes args_to_key (released form behind the deviation D_none_separator, intended injective form otherwise) and TLC evaluates NoSharedEntry / SameCallSameKey over ALL ordered pairs of call signatures (arity <= 2 quick / 3 thorough, values None, \'a\', 1, 1.0, keyword subsets of {a,b}) x typed x ignore sets; the released form is shown to violate it (design-level reproduction of the known finding). '
         'Conformance: pairs of signatures (random, identical, and the confusable positional-tail/keyword shapes) are called through Cache/FanoutCache/Index/DjangoCache.memoize and memoize_stampede on a real variadic function; result, call counter and __cache_key__ equality are judged by TLC (MemoTrace.tla) with the model key; expiry scenarios (None, 0, positive) under a virtual clock and an early-recompute scenario for memoize_stampede.',
    technique='TLA+ transcription of the key function checked over all signature pairs by TLC; observed call pairs validated by TLC')
-NOTES = {'C16': SEQ_NOTE, 'C20': CONC_NOTE + ' Start times are rounded outwards to 1/4000 s (sound for the bound); a virtual sleep advances time by at least 1e-6 s.', 'C15': CONC_NOTE + ' Contenders in separate processes only in the fork scenario.', 'C19': SEQ_NOTE + ' Return values the contract leaves open (set, delete_many, clear, delete of an expired item) are not compared.', 'C13': SEQ_NOTE + ' Aggregate operations under lock timeouts (FanoutCache._remove resuming after Timeout) are only covered with one shard (C14).', 'C11': CONC_NOTE, 'C12': CONC_NOTE + ' No exhaustive TLC exploration of the Index composition yet (level exploration).', 'C14': CONC_NOTE, 'C07': 'Trusted: SQLite atomic commit / WAL recovery and release of the write lock on process death; kill points are the boundary events of the victim (before each statement, file create/write/close/remove, directory create/remove); the lazy cull of writes is switched off in kill workloads (not observable per call). Deque/Index workloads are killed in C11/C12.', 'C08': CONC_NOTE + ' Faults are not injected into COMMIT/ROLLBACK (SQLite atomic commit trusted) nor into file removal (removing an existing file is assumed to succeed).', 'C05': CONC_NOTE, 'C06': CONC_NOTE, 'C03': SEQ_NOTE, 'C04': SEQ_NOTE, 'C09': SEQ_NOTE, 'C10': SEQ_NOTE}
+CHECKS['C17'] = dict(level='fault_enumeration', ref='DESIGN.md 3.7, 6 (C17)',
+   text='CheckTrace.tla defines check() as a function Report(O) of the directory state O (rows, value files with actual sizes, directory tree, counters; observed with plain SQL and os.walk) and check(fix=True) as the transformer Fixed(O); TLC judges ReportComplete, PlainCheckPure, FixConverges (second report empty), FixPreservesUndamaged, remaining items readable. '
+        'Damage enumeration on a real Cache and on one shard of a FanoutCache: all single damages and pairs (thorough: + sampled triples) of 16 kinds (file deleted / truncated / emptied / extended, stray files and empty directories at every level, counters off, half-written debris).',
+   technique='damage enumeration; check()/check(fix) judged by TLC against a TLA+ definition of the report and of the repaired state')
+NOTES = {'C17': 'Trusted: the observer (plain SQL + os.walk), TLC. Damage combinations beyond pairs are sampled.', 'C16': SEQ_NOTE, 'C20': CONC_NOTE + ' Start times are rounded outwards to 1/4000 s (sound for the bound); a virtual sleep advances time by at least 1e-6 s.', 'C15': CONC_NOTE + ' Contenders in separate processes only in the fork scenario.', 'C19': SEQ_NOTE + ' Return values the contract leaves open (set, delete_many, clear, delete of an expired item) are not compared.', 'C13': SEQ_NOTE + ' Aggregate operations under lock timeouts (FanoutCache._remove resuming after Timeout) are only covered with one shard (C14).', 'C11': CONC_NOTE, 'C12': CONC_NOTE + ' No exhaustive TLC exploration of the Index composition yet (level exploration).', 'C14': CONC_NOTE, 'C07': 'Trusted: SQLite atomic commit / WAL recovery and release of the write lock on process death; kill points are the boundary events of the victim (before each statement, file create/write/close/remove, directory create/remove); the lazy cull of writes is switched off in kill workloads (not observable per call). Deque/Index workloads are killed in C11/C12.', 'C08': CONC_NOTE + ' Faults are not injected into COMMIT/ROLLBACK (SQLite atomic commit trusted) nor into file removal (removing an existing file is assumed to succeed).', 'C05': CONC_NOTE, 'C06': CONC_NOTE, 'C03': SEQ_NOTE, 'C04': SEQ_NOTE, 'C09': SEQ_NOTE, 'C10': SEQ_NOTE}
 
 checks = []
 for pid, c in sorted(CHECKS.items()):
